@@ -46,3 +46,12 @@ Theorem C12_signed_version :
              (VERS, [x00; x00; x00; x00] ++ draft13_wire); (ROOT, root)].
 Proof. intros [secs nanos] root. reflexivity. Qed.
 Print Assumptions C12_signed_version.
+
+(* ---- tie to the source: the integer literals of the functions this property's model stands for
+   (private constants, bounds, unit factors; the files are SiteMap.files_C12) are today the ones the
+   model was written against. Gen/Sites.v num_literals is regenerated from /repo on every run; a
+   changed, added or removed number in a modelled function breaks this obligation ---- *)
+Require RV.Gen.Sites RV.Model.SiteMap.
+Theorem C12_literals_reviewed : RV.Model.SiteMap.literals_ok RV.Model.SiteMap.files_C12.
+Proof. repeat constructor. Qed.
+Print Assumptions C12_literals_reviewed.
